@@ -18,6 +18,10 @@ func New(items []string) List {
 
 func (m *List) Draw(win vaxis.Window) {
 	_, height := win.Size()
+	if height < 1 {
+		// nothing is visible (a window can also have a negative size)
+		return
+	}
 	if m.index >= m.offset+height {
 		m.offset = m.index - height + 1
 	} else if m.index < m.offset {
